@@ -2,10 +2,10 @@ CONSTANT NtNVersions = {7, 8, 9, 10, 11, 12, 13, 14, 15}
 CONSTANT NtCVersions = {9, 10, 11, 12, 13, 14, 15, 16, 17, 18, 19, 20, 21}
 CONSTANT DMQVersions = {1}
 CONSTANT ExtraIds = {11, 99}
-CONSTANT Design = "legacy"
-CONSTANT LkaOffKinds = {}
+CONSTANT Design = "dropid"
+CONSTANT LkaOffKinds = {"ntn"}
 CONSTANT LkaOffFull = FALSE
-CONSTANT StopScope = "none"
+CONSTANT StopScope = "duplex"
 INIT Init
 NEXT Next
 INVARIANT TypeOK
